@@ -186,10 +186,68 @@ type mtarget struct {
 	a, b, aCalls, bCalls   reflect.Value
 	resetA, resetB, resetA2 reflect.Value // ResetACalls, ResetBCalls, ResetCalls
 	arity                  int
+	pr                     *probe // non-nil: AFunc observes, while it runs, whether its own call is already recorded
 	nilFuncs               bool // MFunc fields left nil: the mock is used as a pure call recorder (stub-impl)
 }
 
 func newM(name string, mk func() interface{}) *mtarget { return newM2(name, mk, false) }
+
+// probe: "recorded before the user's function is entered".  One caller makes the calls one after the other; while AFunc
+// runs it (a) reads ACalls() itself and (b) blocks until an observer goroutine has read ACalls(): both must already
+// list the call in progress; (c) every third call AFunc panics (recovered by the caller) and the call must stay recorded.
+type probe struct {
+	req chan [2]int // {code of the call in progress, number of records expected}
+	ack chan struct{}
+	n   int // calls entered so far
+}
+
+type probePanic struct{}
+
+func (t *mtarget) listed(recs []int, c, wantLen int) bool {
+	if t.arity == 0 {
+		return len(recs) == wantLen
+	}
+	for _, r := range recs {
+		if r == c {
+			return true
+		}
+	}
+	return false
+}
+
+func (t *mtarget) runProbe(K int) {
+	t.pr = &probe{req: make(chan [2]int), ack: make(chan struct{})}
+	done := make(chan struct{})
+	go func() { // the observer: another goroutine, while AFunc is blocked
+		defer close(done)
+		for q := range t.pr.req {
+			if !t.listed(t.read(t.aCalls), q[0], q[1]) {
+				fail(t.name, "probe/other-goroutine-while-func-runs", "unrecorded-while-running",
+					map[string]interface{}{"call": q[0], "what": "ACalls() read by another goroutine while AFunc is running does not list the call in progress"})
+			}
+			t.pr.ack <- struct{}{}
+		}
+	}()
+	for k := 0; k < K; k++ {
+		func() {
+			defer func() {
+				if p := recover(); p != nil {
+					if _, ok := p.(probePanic); !ok {
+						fail(t.name, "probe", "panic", fmt.Sprint(p))
+					}
+				}
+			}()
+			t.call(t.a, code(1, k))
+		}()
+	}
+	close(t.pr.req)
+	<-done
+	if recs := t.read(t.aCalls); len(recs) != K {
+		fail(t.name, "probe/final", "lost-or-extra", map[string]interface{}{"calls": K, "records": len(recs),
+			"what": "every third AFunc panicked (recovered by the caller); a call whose function panics is still a call"})
+	}
+	stat("probe_calls", int64(K))
+}
 
 func newM2(name string, mk func() interface{}, nilFuncs bool) *mtarget {
 	t := &mtarget{name: name, v: reflect.ValueOf(mk()), nilFuncs: nilFuncs}
@@ -207,6 +265,18 @@ func newM2(name string, mk func() interface{}, nilFuncs bool) *mtarget {
 				decode(in[0], &cs)
 				if len(cs) > 0 {
 					c = cs[0]
+				}
+			}
+			if pr := t.pr; pr != nil && m == "A" {
+				pr.n++
+				if !t.listed(t.read(t.aCalls), c, pr.n) {
+					fail(t.name, "probe/inside-func", "unrecorded-in-func",
+						map[string]interface{}{"call": c, "what": "ACalls() read by AFunc itself does not list the call in progress"})
+				}
+				pr.req <- [2]int{c, pr.n}
+				<-pr.ack
+				if pr.n%3 == 0 {
+					panic(probePanic{})
 				}
 			}
 			res := make([]reflect.Value, ft.NumOut())
@@ -369,6 +439,7 @@ func (t *mtarget) recorder() (ok bool) {
 
 func (t *mtarget) stress(plan *Plan, rng *rand.Rand) {
 	t.stressWith(plan, rng, false)
+	newM2(t.name, func() interface{} { return reflect.New(t.v.Elem().Type()).Interface() }, false).runProbe(12)
 	if t.recorder() {
 		// the same rounds on a mock whose MFunc fields are nil: every call takes the "no function" path
 		t.stressWith(plan, rng, true)
